@@ -86,23 +86,42 @@ class CycleAlpha(object):
 
 class HistCloseAlpha(object):
     """Harness alpha reading the data source's public range query: weight 1 where the last close of the trailing
-    `lookback` calendar days (up to the rebalance instant) is above the first one, 0.5 with a single close."""
+    `lookback` calendar days (up to the rebalance instant) is above the first one, 0.5 with a single close, plus 0.5
+    for the asset with the highest closing level."""
 
-    def __init__(self, ds, universe, lookback):
-        self.ds, self.universe, self.lookback = ds, universe, lookback
+    def __init__(self, ds, universe, lookback, dh=None, tz=None):
+        self.ds, self.universe, self.lookback, self.dh, self.tz = ds, universe, lookback, dh, tz
 
     def __call__(self, dt):
         assets = self.universe.get_assets(dt)
         w = {a: 0.0 for a in assets}
         if not assets:
             return w
-        df = self.ds.get_assets_historical_closes(dt - pd.Timedelta(days=self.lookback), dt, list(assets))
+        lo, hi = dt - pd.Timedelta(days=self.lookback), dt
+        if self.tz:
+            lo, hi = lo.tz_convert(self.tz), hi.tz_convert(self.tz)       # the same instants, written in another zone
+        df = None
+        if self.dh is not None:
+            # the handler's range query first (it refuses with TypeError on this code base), else the source's own
+            try:
+                df = self.dh.get_assets_historical_range_close_price(lo, hi, list(assets))
+            except TypeError:
+                df = None
+        if df is None:
+            df = self.ds.get_assets_historical_closes(lo, hi, list(assets))
+        lasts = {}
         for a in df.columns:
             col = df[a].dropna()
+            if len(col):
+                lasts[a] = float(col.iloc[-1])
             if len(col) == 1:
                 w[a] = 0.5
             elif len(col) >= 2 and col.iloc[-1] > col.iloc[0]:
                 w[a] = 1.0
+        if lasts:
+            # ... and the asset with the highest (raw) closing level gets half a unit more: levels matter too
+            top = max(sorted(lasts), key=lambda a_: lasts[a_])
+            w[top] += 0.5
         return w
 
 
@@ -152,7 +171,7 @@ def run_session(cfg, csv_path, symbols, data_source=None, probe_signals=False, h
     elif acfg['kind'] == 'cycle':
         alpha = CycleAlpha(acfg['vectors'])
     elif acfg['kind'] == 'hist':
-        alpha = HistCloseAlpha(ds, universe, acfg['lookback'])
+        alpha = HistCloseAlpha(ds, universe, acfg['lookback'], dh=dh if acfg.get('via_handler') else None, tz=acfg.get('tz'))
     elif acfg['kind'] == 'single':
         alpha = q.SingleSignalAlphaModel(universe, signal=acfg['signal'])
     elif acfg['kind'] == 'topn':
@@ -267,7 +286,11 @@ def digest(r, upto=None):
         if d == 'error':
             tab.append(repr(row))
         elif upto is None or d <= upto.date():
-            tab.append(repr((d, row)))
+            # an empty (NaN) cell means "no target for this asset yet"; which assets get a column at all depends on
+            # rebalances after the row's date, so only the filled cells belong to the row's result
+            cells = [(c, v) for c, v in row if not (isinstance(v, float) and v != v)]
+            if cells:               # (a row before the first rebalance says nothing - and exists only if a later one ran)
+                tab.append(repr((d, cells)))
     return {'history': hist, 'equity': eq, 'allocations': al, 'fills': fills, 'alloc_table': tab}
 
 
